@@ -1,6 +1,7 @@
 import EinxModel.Props.C15
 import EinxModel.Props.C13Exec
 import EinxModel.Proofs.ExecAdapt
+import EinxModel.Proofs.ExecSemAdapt
 /-!
 # C15 with C04 — the adapted user function is called exactly once by the compiled program
 
@@ -140,6 +141,67 @@ theorem adapter_called_once_compiled (cfg : UCfg) (fc : FCfg) (g : Compile.Graph
         rw [hb] at hq
         rw [huniq j b hb hq]
 
+/-- **adapter_call_value_compiled** (value level): under the premises of `adapter_called_once_compiled` and reachability of the
+call, the event trace of the emitted program contains **exactly one call event whose function term is a constant object**
+(`constAtom n`: an object injected into the namespace of the generated code — the graph has exactly one `Constant` node, the
+user function); it has as many positional arguments as the specification has aligned tensors and exactly the keyword names
+`axis` (reduce) followed by the forwarded options.  No other call event of the program calls a constant object, whatever node
+produced it. -/
+theorem adapter_call_value_compiled (cfg : UCfg) (fc : FCfg) (g : Compile.Graph) (aux : List TAux)
+    (shapes : List (Nat × List Nat)) (constVals : List (Option Val)) (ag : Adapt.Graph) (fg : Factory.Graph)
+    (comp : Compiled) (s : Spec) (hwf : g.WF = true) (hsup : Supported g = true)
+    (hag : toAdapt g shapes constVals = some ag) (hfg : toFactory g aux = some fg) (hfwf : Factory.wf fg = true)
+    (hc : compile cfg fc g = .ok comp) (hok : adaptOK ag s = true) :
+    ∃ k c, ag.apps.filter isAnyConstant = [.constant (.obj k) c] ∧
+      (callsReachable ag fg c = true →
+        ∃ f as ks,
+          (execBlock { env := unbound } comp.st.program).trace.filter (trackedCall isConstAtom) =
+            [.call (E.mk .call (f :: as ++ ks))] ∧
+          isConstAtom f = true ∧ as.length = s.argShapes.length ∧ ks.map kwName = s.kwargs.map (fun kv => some kv.1)) := by
+  obtain ⟨k, c, fn, args, r, xs1, c1, r1, xs2, c2, r2, ci, r3, hconst, hcall, huses, hargs, _⟩ := adaptOK_sound ag s hok
+  obtain ⟨i, hi, hpi, huniq⟩ := filter_singleton_index (isCallOf c) _ ag.apps hcall
+  refine ⟨k, c, hconst, ?_⟩
+  intro hreach
+  obtain ⟨a, ha, hta⟩ := toAdapt_app g shapes constVals ag hag i _ hi
+  obtain ⟨fn', args', kwargs', deps', o, rfl, hfn, hargs', hkw', _⟩ := toAdaptApp_call_inv _ a fn args s.kwargs (.ref r) hta.symm
+  have hfnc : fn' = .var c := by
+    cases hfv : fn with
+    | ref f =>
+      rw [hfv] at hpi hfn
+      simp only [isCallOf, beq_iff_eq] at hpi
+      subst hpi
+      exact toVal_ref_inv fn' f hfn.symm
+    | _ => rw [hfv] at hpi; simp [isCallOf] at hpi
+  subst hfnc
+  obtain ⟨k0, hk0, _, _⟩ := filter_singleton_index isAnyConstant _ ag.apps hconst
+  obtain ⟨a0, ha0, hta0⟩ := toAdapt_app g shapes constVals ag hag k0 _ hk0
+  obtain ⟨str, rfl⟩ := toAdaptApp_constant_inv _ a0 _ c hta0.symm
+  have hnot := not_allowInline_of_constant g aux fg hfg hfwf k0 str c ha0
+  have hilt : i < ag.apps.length := (List.getElem?_eq_some_iff.1 hi).1
+  have hir : i ∈ Factory.reachable fg := by
+    simp only [callsReachable, List.all_eq_true, List.mem_range, Bool.or_eq_true, Bool.not_eq_true',
+      List.contains_eq_mem, decide_eq_true_eq] at hreach
+    rcases hreach i hilt with h | h
+    · simp [callsTracer, hi, hpi] at h
+    · exact h
+  have hex := Einx.Props.C13.exec_from_compile cfg fc g aux fg comp hwf hsup hfg hfwf hc
+  have hivis : Visit.app i ∈ comp.order := (mem_appsOf _ i).1 ((hex.2 i).2 hir)
+  obtain ⟨_, _, ho, _, _⟩ := compile_parts cfg fc g comp hc
+  obtain ⟨rr, hr, htr, _⟩ := compile_correct_wf cfg fc g comp hwf hc
+  have T := track_const g aux shapes constVals ag fg hwf hsup hag hfg hfwf k c i fn args s.kwargs (.ref r) hconst hi hpi huses
+  obtain ⟨f, as, ks, hfilt, hqf, hlen, hnames⟩ := tracked_call_once isConstAtom_qok T cfg.unaryParens comp.order rr hr
+    (visitOrder_nodup g hwf comp.order ho) (fun k' hk' => visitOrder_enters g aux fg hwf hsup hfg comp.order ho k' hk')
+    i c args' kwargs' deps' o ha rfl hnot hivis (by
+      intro v _ ⟨j, y, args2, kwargs2, deps2, out2, hv, hj, hy⟩
+      subst hy
+      have hja := toAdapt_app_fwd g shapes constVals ag hag j _ hj
+      have := huniq j _ hja (by simp [toAdaptApp, isCallOf, toVal_var])
+      rw [hv, this])
+  refine ⟨f, as, ks, by rw [← htr]; exact hfilt, hqf, ?_, ?_⟩
+  · rw [hlen, ← argsAre_length ag args s.argShapes hargs, hargs', List.length_map]
+  · rw [hnames, hkw']
+    simp [toKw, List.map_map, Function.comp_def]
+
 /-! ## Non-vacuity -/
 
 /-- The graph of `adapt_numpylike_reduce(f)("a [b] c", x, scale=2)` (`Props/C15.lean:exampleGraph`) as the C04 graph. -/
@@ -179,5 +241,12 @@ example : (match compile Einx.Props.C13.fixedCfg ⟨true, true, true⟩ exampleC
       decide (((taggedTrace { env := unbound } (sstmts c.st)).filter (byCallOf ag 3)).map
           (fun p => (p.1, (callShape p.2).map (fun s => (s.2.1.length, s.2.2)))) = [(some 2, some (1, ["axis", "scale"]))])
     | _, _ => false) = true := by decide +kernel
+
+/-- Value level on the example: the compiled program has exactly one call event of a constant object, `const1(in0, axis=…, scale=…)`. -/
+example : (match compile Einx.Props.C13.fixedCfg ⟨true, true, true⟩ exampleCGraph with
+    | .ok c =>
+      ((execBlock { env := unbound } c.st.program).trace.filter (trackedCall isConstAtom)).map
+        (fun ev => (callShape ev).map (fun s => (decide (s.1 = constAtom 1), s.2.1.length, s.2.2)))
+    | _ => []) = [some (true, 1, ["axis", "scale"])] := by decide +kernel
 
 end Einx.Adapt
